@@ -35,7 +35,9 @@ void SetLstMacroExp(tLstMacroExp NewLstMacroExp) {
 
     LstMacroExp = NewLstMacroExp;
     strmaxcpy(TmpCompStr, LstMacroExpName, sizeof(TmpCompStr));
+    PushLocHandle(-1);
     EnterIntSymbol(&TmpComp, NewLstMacroExp, SegNone, True);
+    PopLocHandle();
     if (LstMacroExp == eLstMacroExpAll) {
         strcpy(ListLine, "ALL");
     } else if (LstMacroExp == eLstMacroExpNone) {
